@@ -83,6 +83,11 @@ type ReplayFile struct {
 	// History is set when the violation depends on state the code under test keeps across runs of one
 	// process (package-level pools, caches): the replay is then the worker's whole run sequence.
 	History *RunHistory `json:"history,omitempty"`
+	// HistoryIfNeeded: the worker's run sequence, kept in every replay file. A violation that the
+	// worker could reproduce from its own tape - in a process that earlier runs had already left
+	// their mark on - but that a fresh process cannot, is upgraded to a run-history replay on the
+	// first replay (the file is rewritten with History set and replayed again in a fresh process).
+	HistoryIfNeeded *RunHistory `json:"history_if_needed,omitempty"`
 }
 
 // RunHistory identifies the sequence of runs a worker executed before (and including) the failing one.
@@ -528,7 +533,8 @@ func minimiseAndWrite(p *props.Property, vals []uint32, v world.Violation, o pro
 			return path
 		}
 	}
-	rf := ReplayFile{Property: p.ID, VerifSeed: vseed, RunIndex: idx, RunSeed: rs, Tier: o.Tier, TreeHash: tree, Tape: trimZeros(used), OrigTape: len(vals), LogHash: strconv.FormatUint(out.Stats.LogHash, 16)}
+	hist := workerHistory
+	rf := ReplayFile{Property: p.ID, VerifSeed: vseed, RunIndex: idx, RunSeed: rs, Tier: o.Tier, TreeHash: tree, Tape: trimZeros(used), OrigTape: len(vals), LogHash: strconv.FormatUint(out.Stats.LogHash, 16), HistoryIfNeeded: &hist}
 	for _, vv := range out.Viols {
 		if vv.Signature == v.Signature {
 			rf.Violation = vv
@@ -624,6 +630,20 @@ func cmdReplay(args []string) int {
 			fmt.Println("NOTE: event log hash differs from the recorded one (the tree changed since the file was written?)")
 		}
 		return 1
+	}
+	if rf.HistoryIfNeeded != nil {
+		// process-global state in the code under test: upgrade the file to a run-history replay and
+		// replay that in a fresh process
+		rf.History, rf.HistoryIfNeeded = rf.HistoryIfNeeded, nil
+		rf.Decoded = nil
+		if nb, err := json.MarshalIndent(rf, "", " "); err == nil && os.WriteFile(*file, nb, 0o644) == nil {
+			fmt.Printf("not reproduced from its own tape in a fresh process: upgraded %s to a run-history replay\n", *file)
+			self, _ := os.Executable()
+			cmd := exec.Command(self, "replay", "-file", *file)
+			cmd.Stdout, cmd.Stderr = os.Stdout, os.Stderr
+			cmd.Run()
+			return cmd.ProcessState.ExitCode()
+		}
 	}
 	fmt.Printf("NOT-REPRODUCED property=%s signature=%s\n", rf.Property, rf.Violation.Signature)
 	for _, v := range out.Viols {
